@@ -8,6 +8,7 @@ import (
 	"testing"
 
 	"github.com/crate-crypto/go-ipa/bandersnatch/fr"
+	"github.com/crate-crypto/go-ipa/ipa"
 	"pgregory.net/rapid"
 
 	"verif/harness/hx"
@@ -74,10 +75,14 @@ func c18Coeffs(p polySpec, f []*big.Int) []*big.Int {
 }
 
 func checkDivide(p polySpec, f []*big.Int, co []*big.Int, k int) error {
+	return checkDivideOn(Cfg().PrecomputedWeights, p, f, co, k)
+}
+
+func checkDivideOn(pw *ipa.PrecomputedWeights, p polySpec, f []*big.Int, co []*big.Int, k int) error {
 	ff := hx.FrSliceFromBig(f)
 	ffCopy := append([]fr.Element(nil), ff...)
 	var q []fr.Element
-	if perr := hx.Try(func() { q = Cfg().PrecomputedWeights.DivideOnDomain(uint8(k), ff) }); perr != nil {
+	if perr := hx.Try(func() { q = pw.DivideOnDomain(uint8(k), ff) }); perr != nil {
 		return fmt.Errorf("DivideOnDomain(%d): %w", k, perr)
 	}
 	_ = ffCopy
@@ -96,8 +101,12 @@ func checkDivide(p polySpec, f []*big.Int, co []*big.Int, k int) error {
 }
 
 func checkEvaluate(p polySpec, f []*big.Int, co []*big.Int, z *big.Int) error {
+	return checkEvaluateOn(Cfg().PrecomputedWeights, p, f, co, z)
+}
+
+func checkEvaluateOn(pw *ipa.PrecomputedWeights, p polySpec, f []*big.Int, co []*big.Int, z *big.Int) error {
 	var b []fr.Element
-	if perr := hx.Try(func() { b = Cfg().PrecomputedWeights.ComputeBarycentricCoefficients(hx.FrFromBig(z)) }); perr != nil {
+	if perr := hx.Try(func() { b = pw.ComputeBarycentricCoefficients(hx.FrFromBig(z)) }); perr != nil {
 		return fmt.Errorf("ComputeBarycentricCoefficients(%s): %w", z.Text(16), perr)
 	}
 	if len(b) != 256 {
@@ -111,7 +120,7 @@ func checkEvaluate(p polySpec, f []*big.Int, co []*big.Int, z *big.Int) error {
 			b[i].SetUint64(uint64(i) + 7)
 		}
 		var b2 []fr.Element
-		if perr := hx.Try(func() { b2 = Cfg().PrecomputedWeights.ComputeBarycentricCoefficients(hx.FrFromBig(z)) }); perr != nil {
+		if perr := hx.Try(func() { b2 = pw.ComputeBarycentricCoefficients(hx.FrFromBig(z)) }); perr != nil {
 			return perr
 		}
 		if got2 := ref.FrInner(f, hx.FrSliceToBig(b2)); got2.Cmp(want) != 0 {
@@ -219,16 +228,29 @@ func TestC18(t *testing.T) {
 	if !s.Guard(func() { Cfg() }) {
 		return
 	}
-	// all 512 + 510 table entries (partitioned over shards)
-	for i := 0; i < 512; i++ {
-		if hx.Sharded(i) {
-			c18Table.EvalCase(s, c18TableCase{Table: "weights", Index: i})
+	// the FIRST call on a freshly constructed weights object, at an index k > 0 and at an out-of-domain point (tables
+	// or caches that are filled lazily must be complete before their first use)
+	for j := 0; j < 4; j++ {
+		k := 1 + (37*hx.Shard()+61*j+hx.Seed())%255
+		p := polySpec{Kind: "dense", Seed: uint64(500 + 16*j + hx.Shard())}
+		f := c18Evals(p)
+		co := c18Coeffs(p, f)
+		fresh := ipa.NewPrecomputedWeights()
+		var err error
+		s.Guard(func() {
+			if j%2 == 0 {
+				err = checkDivideOn(fresh, p, f, co, k)
+			} else {
+				err = checkEvaluateOn(fresh, p, f, co, big.NewInt(int64(256+k)))
+			}
+		})
+		s.Rec.Eval(1)
+		if err != nil {
+			s.Violation("poly", c18Case{Poly: p, Mode: map[bool]string{true: "divide", false: "evaluate"}[j%2 == 0], K: k, Z: hx.HexBig(big.NewInt(int64(256 + k)))},
+				fmt.Errorf("first call on a fresh PrecomputedWeights object: %w", err))
+			break
 		}
-	}
-	for i := 0; i < 510; i++ {
-		if hx.Sharded(i) {
-			c18Table.EvalCase(s, c18TableCase{Table: "inverted", Index: i})
-		}
+		s.Rec.Label("first_call_on_fresh_object")
 	}
 	s.Rec.NTEnum(0)
 	// all 256 indices for a set of polynomials: one dense and one unit vector per shard, the monomial and a constant across shards
@@ -272,6 +294,17 @@ func TestC18(t *testing.T) {
 		}
 		for _, zh := range []string{"100", "101", "10000000000000000", hx.HexBig(rMinus1), hx.HexBig(hx.ExpandFr(uint64(pi+hx.Shard()), "c18z", 0))} {
 			c18Part.EvalCase(s, c18Case{Poly: p, Mode: "evaluate", Z: zh})
+		}
+	}
+	// all 512 + 510 table entries (partitioned over shards)
+	for i := 0; i < 512; i++ {
+		if hx.Sharded(i) {
+			c18Table.EvalCase(s, c18TableCase{Table: "weights", Index: i})
+		}
+	}
+	for i := 0; i < 510; i++ {
+		if hx.Sharded(i) {
+			c18Table.EvalCase(s, c18TableCase{Table: "inverted", Index: i})
 		}
 	}
 	s.Rec.Extra("exhaustive", complete && !s.Failed())
